@@ -763,7 +763,9 @@ func (h *Handle) Execute() {
 		r.muted = true
 		func() {
 			defer func() { _ = recover() }()
-			eng2 := &engine.GruleEngine{MaxCycle: sc.Knobs.MaxCycle} // no listeners: these calls are not judged
+			// no listeners: these calls are not judged. Two cycles at most: nothing bounds what unjudged actions
+			// do to the facts (a string doubled by three actions in each of twelve cycles does not fit in memory)
+			eng2 := &engine.GruleEngine{MaxCycle: 2}
 			_, _ = eng2.FetchMatchingRules(dctx, kb)
 			_ = eng2.Execute(dctx, kb)
 			_, _ = eng2.FetchMatchingRules(dctx, kb)
